@@ -217,7 +217,7 @@ def rgfa(draw, min_chroms=1, max_chroms=2, max_elements=5, max_ln=9, min_element
                              draw(st.sampled_from(["utg", "n", "s0", "s1.", "ctg-", "n#", "b", "s,", "u=", "t;"]))], start, max_ln)
     b.cycles = cycles
     nchrom = draw(st.integers(min_chroms, max_chroms))
-    names = draw(st.permutations(["chr1", "chr2", "chrX", "chr10_alt", "chr1.mat", "chr1.pat"]))[:nchrom]
+    names = draw(st.permutations(["chr1", "chr2", "chrX", "chr10_alt", "chr1.mat", "chr1.pat", "complete"]))[:nchrom]
     for name in names:
         b.chain(name, draw(st.integers(min_elements, max_elements)), allow_bridge, max_ears)
     b.fix_majority()
